@@ -32,6 +32,8 @@ def make_plan(seed: int, tier: str, opts: dict) -> dict:
         for c in spec["conns"]:
             c["blocking"] = False
             c["jitter"] = "L"
+    for ep in eps:
+        ep["until_active"] = True
     return dict(spec=spec, seed=seed, episodes=eps, clock="sim", line_rate=0.0, compile=comp, source=source, dyn_episode=r.randrange(n_eps), gen_eps=r.randint(1, 3),
                 gen_tmax=r.choice([0.6, 1.0, 1.5]))
 
@@ -99,8 +101,13 @@ def run_plan(plan: dict, replay=None) -> dict:
         if cc.get("s_init"):
             if S_other is None:
                 first = jax.tree_util.tree_map(lambda x: x[:1], raw)
-                S_other = compiled.build_graph(nodes, sup, first, mode="mcs", prune=cc["prune"]).S
-            kw["S_init"] = S_other
+                try:
+                    S_other = compiled.build_graph(nodes, sup, first, mode="mcs", prune=cc["prune"]).S
+                except Exception:
+                    S_other = False  # the sub-experiment does not compile on its own (see "skipped" below); go on without S_init
+            if S_other:
+                kw["S_init"] = S_other
+                tot["s_init_instances"] = tot.get("s_init_instances", 0) + 1
         try:
             G = compiled.build_graph(nodes, sup, raw, mode=cc["mode"], prune=cc["prune"], **kw)
         except Exception as e:
